@@ -51,6 +51,13 @@ def _gen_filters(rng, dump, stream_ids, tids, procs):
         if f['proc'].isdigit() and rng.chance(0.3):
             # not the decimal text of the pid, only something int() would accept
             f['proc'] = rng.pick(['0' + f['proc'], '+' + f['proc'], ' ' + f['proc'], f['proc'] + ' ', f['proc'][:1] + '_' + f['proc'][1:] if len(f['proc']) > 1 else '00' + f['proc']])
+    if classes and rng.chance(0.08):
+        # a class together with several subclasses OF THAT CLASS (they add nothing: every event of the class is kept anyway)
+        c = rng.pick(classes)
+        f['cls'] = [c] + ([rng.pick(classes)] if rng.chance(0.3) else [])
+        f['sub'] = sorted({(c << 8) | rng.pick([0, 1, 2, 0x0c, 0x7f, 0xfe]) for _ in range(rng.randint(2, 3))})
+        if rng.chance(0.5):
+            rng.shuffle(f['sub'])
     if rng.chance(0.12):
         # entries that are no class / subclass at all: negative, one byte too wide, an event id's spelling - they match nothing
         if f.get('cls') and classes:
@@ -136,6 +143,7 @@ def generate(rng, index, tier):
             req = {'op': 'request', 'dump': di, 'what': rng.pick(['kevents', 'kevents', 'logs'])}
             if rng.chance(0.1):
                 req['reconfigured_while_pending'] = _gen_filters(rng, d, sids, tids, procs) if rng.chance(0.6) else {}
+                req['in_place'] = rng.chance(0.5)
             elif rng.chance(0.25):
                 # between creating the judged listing and consuming it, ANOTHER request is issued on the same object
                 # (the configuration stays as it is)
@@ -265,12 +273,21 @@ def execute(scn):
             # log record; a log listing holds log records only
             bump('probe:settings_changed_while_listing_pending')
             bump('fault:reconfigure')
+            newf = h['reconfigured_while_pending']
+            in_place = bool(h.get('in_place')) and isinstance(p.filter_class, list) and isinstance(p.filter_subclass, list)
             try:
                 pending = (p.kevents if what == 'kevents' else p.os_log_events)(SimReader(files[di]))
-                apply_filters(p, h['reconfigured_while_pending'])
+                if in_place:
+                    # only the two lists change, and they are edited as the objects they are
+                    p.filter_class[:] = list(newf.get('cls') or [])
+                    p.filter_subclass[:] = list(newf.get('sub') or [])
+                else:
+                    apply_filters(p, newf)
                 items, exc = common.drain(lambda: pending)
             except Exception as e:
                 items, exc = [], e
+            # (no instant is demanded here: the unchanged tree itself decides WHETHER to filter when the listing is made and reads the
+            #  lists' contents when it is read - a listing made with [4] and read after the list was emptied in place is empty)
             apply_filters(p, cur)
             ritems, rexc = ref(di, what)
             if exc is None and rexc is None:
